@@ -19,6 +19,7 @@ type Job struct {
 	Args     []string
 	Setup    string // optional function run once per worker before any path (e.g. extensions.Init wrapper)
 	MaxSteps int64
+	MaxDec   int // bound on decisions per path (default 2000)
 	MapOrder bool // explore Go map iteration orders as choice points
 	NoAtoms  bool // execute number formatting digit by digit instead of atoms
 }
@@ -333,6 +334,11 @@ func (r *Runner) runPath(x *Exec, it workItem, setups map[string]bool) {
 		x.maxSteps = job.MaxSteps
 	} else {
 		x.maxSteps = 20_000_000
+	}
+	if job.MaxDec > 0 {
+		x.maxDec = job.MaxDec
+	} else {
+		x.maxDec = 2000
 	}
 	if job.MapOrder {
 		x.env = map[string]Value{}
